@@ -494,7 +494,7 @@ pub fn generate(rng: &mut Rng, n: usize, tier: &str) -> Vec<String> {
             if base.contains("point_add") || base.contains("pubkey") {
                 continue;
             }
-            let bs: &[u64] = if tier == "thorough" { &[1, 5_000, 300_000, 3_000_000] } else { &[1, 5_000, 200_000] };
+            let bs: &[u64] = if tier == "thorough" { &[1, 5_000, 30_000, 300_000] } else { &[1, 5_000, 30_000] };
             for b in bs {
                 push(*b, &p, &e, " nocanon");
             }
